@@ -11,8 +11,8 @@ from common import CACHE, OFFLINE_ENV, SCRATCH, TARGET, WORK, Undecided, dump_js
 KANI_FLAGS = ["-Z", "function-contracts", "-Z", "stubbing", "-Z", "unstable-options"]
 MEM_LIMIT_GB = int(os.environ.get("VERIF_MEM_GB", "16"))
 LIGHT_JOBS = int(os.environ.get("VERIF_JOBS", "10"))
-HEAVY_JOBS = int(os.environ.get("VERIF_HEAVY_JOBS", "4"))
-HEAVY_THRESHOLD = 400          # declared timeout above which an obligation runs in the heavy group
+HEAVY_JOBS = int(os.environ.get("VERIF_HEAVY_JOBS", "7"))
+HEAVY_THRESHOLD = 1200         # declared timeout from which an obligation runs in the heavy group (measured 5-8 GB each)
 
 
 def _limits():
@@ -183,12 +183,20 @@ def run_obligations(obs, tree_hash, use_cache=True):
         # one invocation (one crate build); the longest-running harnesses are listed first so that they
         # overlap with the many short ones.  Every kept harness was measured below 8 GB (DESIGN.md 12).
         group = sorted(group, key=lambda o: -o["timeout"])
-        r = _run_group(group, LIGHT_JOBS, max(o["timeout"] for o in group), feat, "all")
-        for oid, res in r.items():
-            res["cached"] = False
-            results[oid] = res
-            if res.get("verdict") in ("discharged", "violation"):
-                dump_json(os.path.join(cdir, oid + ".json"), res)
+        # memory: the harnesses with a declared timeout >= HEAVY_THRESHOLD were measured at 5-8 GB resident each;
+        # ten of them at once exceed the 62 GB of this machine, so they run first with HEAVY_JOBS in parallel,
+        # the (many, small) others afterwards with LIGHT_JOBS.
+        heavy = [o for o in group if o["timeout"] >= HEAVY_THRESHOLD]
+        light = [o for o in group if o["timeout"] < HEAVY_THRESHOLD]
+        for part, jobs, tag in ((heavy, HEAVY_JOBS, "heavy"), (light, LIGHT_JOBS, "light")):
+            if not part:
+                continue
+            r = _run_group(part, jobs, max(o["timeout"] for o in part), feat, tag)
+            for oid, res in r.items():
+                res["cached"] = False
+                results[oid] = res
+                if res.get("verdict") in ("discharged", "violation"):
+                    dump_json(os.path.join(cdir, oid + ".json"), res)
     return results
 
 
